@@ -68,14 +68,60 @@ func callsTo(fn *ssa.Function, name string) []ssa.CallInstruction {
 	return out
 }
 
+// returns lists the Return instructions of fn.  In functions with defers go/ssa spills results into
+// locals (`*t0 = v; rundefers; t = *t0; return t`); the spilled loads are replaced in place by the
+// value stored in the same block, so rules see the value the source returns.
 func returns(fn *ssa.Function) []*ssa.Return {
 	var out []*ssa.Return
 	instrs(fn, func(ins ssa.Instruction) {
 		if r, ok := ins.(*ssa.Return); ok {
+			if fn.Recover != nil && r.Block() == fn.Recover {
+				return // synthetic return of the recover block (runs only after a recovered panic)
+			}
+			for i, v := range r.Results {
+				if u, ok := v.(*ssa.UnOp); ok && u.Op == token.MUL {
+					if al, ok := u.X.(*ssa.Alloc); ok && u.Block() == r.Block() {
+						var last ssa.Value
+						for _, x := range r.Block().Instrs {
+							if st, ok := x.(*ssa.Store); ok && st.Addr == al {
+								last = st.Val
+							}
+							if x == ssa.Instruction(u) {
+								break
+							}
+						}
+						if last != nil {
+							r.Results[i] = last
+						}
+					}
+				}
+			}
 			out = append(out, r)
 		}
 	})
 	return out
+}
+
+// cmpFact renders a comparison fact in the canonical operand order used by the fact engine.
+func cmpFact(x, op, y string) string {
+	_, xc := parseInt(x)
+	_, yc := parseInt(y)
+	var tok token.Token
+	switch op {
+	case "==":
+		tok = token.EQL
+	case "!=":
+		tok = token.NEQ
+	case "<":
+		tok = token.LSS
+	case "<=":
+		tok = token.LEQ
+	case ">":
+		tok = token.GTR
+	case ">=":
+		tok = token.GEQ
+	}
+	return normCmp(x, tok, y, xc, yc)
 }
 
 func constOf(v ssa.Value) (*ssa.Const, bool) {
